@@ -5,6 +5,8 @@
 #include "ares_private.h"
 #include "drv_common.h"
 #include "dsa_reg.h"
+#include <unistd.h>
+#include <sanitizer/lsan_interface.h>
 
 static struct { const char *kind; dsa_run_fn fn; } kinds[32];
 static int nkinds;
@@ -39,7 +41,13 @@ static void run_case(long k, char *line)
   dsa_alloc_fail_at = -1;
   dsa_alloc_fail_all = 0;
   for (i = 0; i < nkinds; i++) {
-    if (strcmp(line, kinds[i].kind) == 0) { kinds[i].fn(k, bar + 1); return; }
+    if (strcmp(line, kinds[i].kind) == 0) {
+      kinds[i].fn(k, bar + 1);
+      /* attribute a leak to the case that caused it (exit code = LSAN_OPTIONS exitcode);
+       * the runner resumes with the next case */
+      if (__lsan_do_recoverable_leak_check()) { fflush(stdout); _exit(97); }
+      return;
+    }
   }
   printf("%ld R BADKIND\n", k);
 }
